@@ -211,4 +211,48 @@ theorem copy_paths (s : Seq) (h : Seq.Sound s) :
       · intro i
         simp [Seq.index, Seq.frameInt, hfs0, hframe i]
 
+/-- Split depends on the frame set only through its range string and through Copy: when the
+    re-parse of the range string succeeds, Split of the sequence is Split of its copy -/
+theorem split_eq_split_copy (s : Seq) (fs fs' : FrameSet) (h : s.frameSet = some fs)
+    (hp : FrameSet.parse fs.frange = .ok fs') : s.split = s.copy.split := by
+  have hfr : fs'.frange = fs.frange := parse_frange fs.frange fs' hp
+  have hcopy : s.copy = { s with frameSet := some fs' } := by
+    unfold Seq.copy; simp [h, hp]
+  have hre : Seq.Reparses s.copy := by
+    intro f hf
+    rw [hcopy] at hf
+    simp at hf
+    subst hf
+    rw [hfr]; exact hp
+  have hcc : s.copy.copy = s.copy := copy_eq _ hre
+  have hfs' : s.copy.frameSet = some fs' := by rw [hcopy]
+  unfold Seq.split
+  rw [h, hfs', hcc]
+  simp only [hfr]
+
+/-- Split after ANY history, whenever the range string of the frame set parses (always, unless a
+    printed number does not fit an int): one part per comma component, every part with the
+    sequence's dirname, basename, pad, width, style and extension, and the parts' frames —
+    concatenated, a frame kept at its first occurrence — are the sequence's frames. -/
+theorem split_sound (s : Seq) (hs : Seq.Sound s) (fs fs' : FrameSet) (h : s.frameSet = some fs)
+    (hp : FrameSet.parse fs.frange = .ok fs') :
+    (s.split).length = (splitOn ',' fs.frange).length ∧
+    (∀ p ∈ s.split, p.dir = s.dir ∧ p.base = s.base ∧ p.pad = s.pad ∧ p.zfill = s.zfill ∧
+        p.style = s.style ∧ p.ext = s.ext ∧ p.frameSet.isSome = true) ∧
+    dedupFirst ((s.split).flatMap Seq.frames) = fs.frames := by
+  have hfr : fs'.frange = fs.frange := parse_frange fs.frange fs' hp
+  have hcopy : s.copy = { s with frameSet := some fs' } := by
+    unfold Seq.copy; simp [h, hp]
+  have hfs' : s.copy.frameSet = some fs' := by rw [hcopy]
+  have hp' : FrameSet.parse fs'.frange = .ok fs' := by rw [hfr]; exact hp
+  obtain ⟨h1, h2, h3⟩ := split_spec s.copy fs' hfs' hp'
+  rw [← split_eq_split_copy s fs fs' h hp] at h1 h2 h3
+  have hc : s.copy.dir = s.dir ∧ s.copy.base = s.base ∧ s.copy.pad = s.pad ∧ s.copy.zfill = s.zfill ∧
+      s.copy.style = s.style ∧ s.copy.ext = s.ext := by rw [hcopy]; simp
+  refine ⟨by rw [h1, hfr], ?_, by rw [h3]; exact ((hs fs h).2 fs' hp).1⟩
+  intro p hpm
+  obtain ⟨a, b, c, d, e, f, g⟩ := h2 p hpm
+  exact ⟨a.trans hc.1, b.trans hc.2.1, c.trans hc.2.2.1, d.trans hc.2.2.2.1, e.trans hc.2.2.2.2.1,
+    f.trans hc.2.2.2.2.2, g⟩
+
 end Gfs.Proofs
